@@ -297,6 +297,32 @@ print(json.dumps(out))
             ck.violation(f'compile(compiled, {kw}) did not raise ValueError', {'kwargs': repr(kw)})
         except ValueError:
             ck.count(('passthrough', tuple(kw)))
+    # the key is the CONTENT of the maps at the time of the call: the same dict object, edited in place between two calls
+    sv.purge()
+    for kind in ('namespaces', 'custom'):
+        for steps in (1, 2, 3):
+            d = {'x': 'urn:a'} if kind == 'namespaces' else {':--k': 'p.a'}
+            pat = 'x|p, [x|t]' if kind == 'namespaces' else 'div :--k'
+            seen = []
+            for i in range(steps + 1):
+                c_ = sv.compile(pat, namespaces=d) if kind == 'namespaces' else sv.compile(pat, custom=d)
+                have = dict(c_.namespaces) if kind == 'namespaces' else dict(c_.custom)
+                fresh_ = cp.CSSParser(pat, custom=cp.process_custom(ct.CustomSelectors(d) if kind == 'custom' else None)).process_selectors()
+                ok = have == d and (kind == 'namespaces' or c_.selectors == fresh_)
+                ck.count(('same-dict-edited', kind, i))
+                if not ok:
+                    ck.violation(f'compile({pat!r}, {kind}=d) after d was edited in place returns a selector built from the earlier contents '
+                                 f'({have!r} instead of {d!r})', {'pattern': pat, 'kind': kind, 'dict_now': dict(d), 'compiled_reports': have,
+                                                                   'history': seen + [dict(d)]})
+                    break
+                seen.append(dict(d))
+                if kind == 'namespaces':
+                    d['x'] = 'urn:b%d' % i
+                    if i == 1:
+                        d['y'] = 'urn:y'
+                else:
+                    d[':--k'] = 'span.b%d' % i
+    sv.purge()
     # ... also when the extra argument only restates what the selector was compiled with
     for ns_, cu_, fl_ in (({'a': 'urn:a'}, None, 0), (None, {':--x': 'p'}, 0), ({'': 'urn:d', 'b': 'urn:b'}, {':--x': 'p', ':--y': 'div'}, 0),
                           (None, None, sv.DEBUG), ({}, {}, 0), ({'a': 'urn:a'}, {':--x': 'p'}, sv.DEBUG)):
